@@ -952,6 +952,7 @@ func (r *W3Run) execOps() {
 			if op.Node >= 1 && op.Node <= len(s.nodes) && s.nodes[op.Node-1].alive && op.N > 0 {
 				n := s.nodes[op.Node-1]
 				n.errAt, n.errSeen = op.N, 0
+				n.errStays = op.A == 1 // A=1: the disk stays full until the process is restarted
 				s.out.Stat("disk_errors_armed", 1)
 			}
 		case "restart":
@@ -1037,7 +1038,7 @@ func (r *W3Run) settle() bool {
 	s.blocked = map[[2]uint64]bool{}
 	for _, n := range s.nodes {
 		n.crashAt = 0
-		n.errAt, n.errSeen = 0, 0
+		n.errAt, n.errSeen, n.diskFullInc = 0, 0, 0 // (somebody made room on a full disk)
 	}
 	s.pump()
 	// a supervisor restarts processes that are down (start-up can fail while the
